@@ -153,6 +153,9 @@ def impl_view(c, im):
     if im["raised"] is not None:
         # the dump of the whole mapping failed after the file was opened
         return dict(fs, result="ok", outcome="body_failed")
+    if "saved" not in im:
+        # the call returned but the file does not hold a loadable dump
+        return dict(fs, result="ok", outcome="unreadable")
     out = dict(fs, result="ok", outcome="saved")
     out["exc_object"] = im["saved"]["exc"]["object_kind"]
     out["frames"] = [{"index": e["key"], "file": e["file"], "line": e["line"], "func": e["func"], "qual": e["qual"],
@@ -236,6 +239,9 @@ def oracle(c, im):
     if im["umask_after"] != c["umask"]:
         bad.append(("mode_0644", "umask %o not restored: %o" % (c["umask"], im["umask_after"])))
     f = im["file"]
+    if f is not None and f.get("trailing"):
+        bad.append(("file_exact", "the file holds %d bytes after the new dump (stale content of the file it replaced)%s"
+                    % (f["trailing"], "; they hold the earlier pickled values of %r" % f["tail_holds"] if f.get("tail_holds") else "")))
     if c.get("pre") is not None:
         if f is None or f["mode"] != c["pre"]:
             bad.append(("mode_0644", "pre-existing file of mode %o now %r" % (c["pre"], f)))
@@ -262,7 +268,7 @@ def oracle(c, im):
         return bad
     if im.get("ret_ok") is False:
         bad.append(("selection_spec", "saveframe did not return the file name"))
-    if f is None or f["state"] != "data":
+    if f is None or f["state"] not in ("data", "data+tail"):
         bad.append(("selection_spec", "no complete file after a successful call: %r" % (f,)))
         return bad
     saved = im["saved"]["frames"]
